@@ -367,7 +367,7 @@ class LogicHelper:
         wr = max(wa,wb)
         name = self._getNewName()
         r = self.parent.wire(name, wr)
-        Add(self.parent, name, a, b, r)
+        SignedAdd(self.parent, name, a, b, r)
         return r
 
         
